@@ -28,7 +28,12 @@ def gen_case(rng, thorough):
         elif r < 0.40:
             ops.append({"op": "addFact", "loc": loc, "id": rng.choice(["f1", "f2", "f3"]) + loc, "fact": {"k": rng.choice([1, 2, "x"]), "at": loc}})
         elif r < 0.50:
-            ops.append({"op": "addRule", "loc": loc, "id": "r" + rng.choice(["1", "2"]) + loc, "rule": {"when": {"pattern": {"go": "?x"}}, "condition": rng.choice([None, {"pattern": {"k": "?k"}}]) or {}, "action": A}})
+            act = A
+            if rng.random() < 0.4:
+                # an action that writes: the fact must land in the location the event was sent to, whatever was searched on the way
+                t = {"t": "addfact", "id": "w" + loc, "fact": {"written": "by-" + loc}}
+                act = {"code": js_of_tmpl(t), "verif_tmpl": t}
+            ops.append({"op": "addRule", "loc": loc, "id": "r" + rng.choice(["1", "2"]) + loc, "rule": {"when": {"pattern": {"go": "?x"}}, "condition": rng.choice([None, {"pattern": {"k": "?k"}}]) or {}, "action": act}})
         elif r < 0.56:
             ops.append({"op": "remFact", "loc": loc, "id": rng.choice(["f1", "f2", "f3"]) + rng.choice(locs)})
         elif r < 0.60:
